@@ -27,7 +27,7 @@ CONFIG = {
     "explanation": "theorems: for every genesis, every block list and every schedule of commits (any offset, any voters lowestRound), "
                    "reloads and cache-filling lookups, LookupAgreement and OnlineCirculation return what the block history implies at "
                    "the round (or an error outside the retained window), and OnlineAccountsDelete never changes what a round >= "
-                   "forgetBefore sees; TopOnlineAccounts: list checked by the runs only (partial), legacy total weight refuted (finding)",
+                   "forgetBefore sees; TopOnlineAccounts: the list is the n largest valid voters for every schedule and every batch size of the candidate loop, the weight is exact for ExcludeExpiredCirculation = true, the legacy weight is refuted (finding)",
     "assumptions": [
         "a StateDelta lists every modified address once; genesis addresses are distinct; online genesis accounts carry voting keys",
         "genesis allocations carry no IncentiveEligible / LastProposed / LastHeartbeat (otherwise: finding genesis_incentive_fields_dropped)",
@@ -40,8 +40,8 @@ CONFIG = {
         "modelled: ledger/acctonline.go, onlineaccountscache.go, acctdeltas.go (compact online deltas, onlineAccountsNewRoundImpl), the SQL of "
         "sqlitedriver accountsV2.go/sql.go for onlineaccounts / onlineroundparamstail (per-address newest-first row lists) as Gallina (coq/model/OnlineAccts.v)",
         "not modelled: expiredCirculationCache memo (answers are functions of (rnd, voteRnd) and the immutable history), baseOnlineAccounts LRU "
-        "(read-through), AccountsOnlineTop 1024-row batching (one fetch), container/heap (a sort), accountsMu / accountsReadCond retry loops "
+        "(read-through), the SQL ORDER BY of AccountsOnlineTop and container/heap (both the same insertion sort in the model; the 1024-row batch loop IS modelled, for any batch size), accountsMu / accountsReadCond retry loops "
         "(single-threaded schedule: commit is atomic w.r.t. readers), the voters tracker (its lowestRound is an arbitrary input of commit)",
-        "TopOnlineAccounts: the list (n largest valid voters) is compared with the history on every run but not proved (C13_top_partial)",
+        "top-N theorems assume RewardsBase + RewardUnit < 2^64 and a non-zero normalized balance for online accounts (minimum balance)",
     ],
 }
